@@ -119,6 +119,19 @@ pub fn each(tier: Tier, tag_filter: Option<&str>, f: &mut dyn FnMut(&Ladder) -> 
                     es(array(vec![id("i"), id("s")])),
                 ]
             );
+            // m branches / loops one after the other (not nested)
+            if m <= 4_200 {
+                let mut p = vec![let_("s", int(0)), let_("c", boolean(true))];
+                for i in 0..m {
+                    p.push(match i % 3 {
+                        0 => es(iff(id("c"), vec![es(op_assign("s", Operator::Add, int(1)))], None)),
+                        1 => es(iff(infix(id("s"), Operator::Lt, int(0)), vec![es(op_assign("s", Operator::Add, int(100)))], Some(vec![es(op_assign("s", Operator::Add, int(2)))]))),
+                        _ => es(whil(id("c"), vec![es(op_assign("s", Operator::Add, int(3))), Stmt::Break])),
+                    });
+                }
+                p.push(es(array(vec![id("s"), int(5)])));
+                emit!("sequential-branches", "control", m, 3_000, p);
+            }
             // early return over a long tail, inside a function that itself starts after m pads
             emit!(
                 "early-return-long-tail",
@@ -227,6 +240,28 @@ pub fn each(tier: Tier, tag_filter: Option<&str>, f: &mut dyn FnMut(&Ladder) -> 
             body.push(es(assign(id(&n3), int(30))));
             body.push(es(array(vec![id(&n1), id(&n2), id(&n3), id(&n4)])));
             emit!("similar-names", "scope", m, 100_000, vec![let_(&n1, int(100)), es(func("f", &[], body)), es(array(vec![calln("f", vec![]), id(&n1)]))]);
+        }
+        // m sibling blocks one after the other, each with its own locals (slots are reused, nothing accumulates),
+        // at top level and inside a function
+        for m in sizes(tier, &[(250, 260), (498, 503)]) {
+            if m > 4_200 {
+                continue;
+            }
+            let blocks = |acc: &str| -> Vec<Stmt> {
+                (0..m)
+                    .map(|i| Stmt::Block(vec![let_("t", int(i as i64 % 7)), let_("u", infix(id("t"), Operator::Add, int(1))), es(assign(id(acc), infix(id(acc), Operator::Add, id("u"))))]))
+                    .collect()
+            };
+            let mut p = vec![let_("s", int(0))];
+            p.extend(blocks("s"));
+            p.push(let_("after", int(5)));
+            p.push(es(array(vec![id("s"), id("after")])));
+            emit!("sibling-blocks", "scope", m, 2_400, p);
+            let mut body = vec![let_("s", int(0))];
+            body.extend(blocks("s"));
+            body.push(let_("after", int(5)));
+            body.push(es(array(vec![id("s"), id("after")])));
+            emit!("sibling-blocks", "scope", m, 2_400, vec![es(func("f", &[], body)), es(array(vec![int(7), calln("f", vec![]), int(8)]))]);
         }
         // nested blocks, one local per level, innermost reads all of them
         for m in (1..=40).chain([63, 64, 65, 127, 128, 129, 255, 256, 257, 400]) {
